@@ -57,6 +57,7 @@ def scen_a(rng, k):
     for t in scn["project"]["tasks"]:
         if t["kind"] in ("run_experiment", "run_command"):
             t["run"] = rng.choice(["true", "./go.sh", "python3 m.py run"])
+    scn["cond_symlinks"] = k % 4 == 1 and rng.random() < 0.8     # placements with packages: their COND files are symlinks
     return scn
 
 
